@@ -85,13 +85,23 @@ theorem C09_removed_disconnected (f : Forest N G) (h : WF f) (u w : N) (hne : u 
 
 variable [DecidableEq G]
 
+/-- the unrestricted statement: after *any* history the cached query equals the cache-free resolution.
+    It is FALSE when an `update` closes a cycle of length ≥ 4 (the code does not prevent that; the
+    reversed cached path is then not the path the fresh walk finds) — see `C09_cycle_witness`.
+    The property quantifies over forests, so the theorem below carries `Safe`. -/
+def C09_cached_full (N G : Type) [DecidableEq N] [Mul G] [One G] [Inv G] [DecidableEq G] : Prop :=
+  ∀ (t : InvalTable), t.ok = true → ∀ (base : N) (ops : List (Op N G)) (a b : N),
+    (doGet (run t (Graph.init base) ops) a b).1 = getRaw (run t (Graph.init base) ops).forest a b
+
 /-- **the caches never serve a stale answer**: with the invalidation protocol the source implements
-    (`InvalTable.ok`), after *any* history of operations — updates, re-parentings, removals, base-frame
-    changes, `clear`, and earlier queries that filled the path cache, the hash memo and the transform
-    cache — a query returns exactly what the cache-free resolution returns on the current forest -/
-theorem C09_cached_get_eq_raw (t : InvalTable) (ht : t.ok = true) (base : N) (ops : List (Op N G)) (a b : N) :
-    (doGet (run t (Graph.init base) ops) a b).1 = getRaw (run t (Graph.init base) ops).forest a b := by
-  sorry
+    (`InvalTable.ok`), after *any* history of operations in which no update closes a cycle (`Safe`) —
+    updates, re-parentings, overwrites, removals, base-frame changes, `clear`, and earlier queries that
+    filled the path cache, the hash memo and the transform cache — a query returns exactly what the
+    cache-free resolution returns on the current forest -/
+theorem C09_cached_get_eq_raw (t : InvalTable) (ht : t.ok = true) (base : N) (ops : List (Op N G))
+    (hs : Safe t (Graph.init base) ops) (a b : N) :
+    (doGet (run t (Graph.init base) ops) a b).1 = getRaw (run t (Graph.init base) ops).forest a b :=
+  cached_get_eq_raw_of_safe t ht base ops hs a b
 
 end group
 
@@ -119,6 +129,36 @@ theorem C09_stale_without_hash_reset :
     (doGet (run badTable (Graph.init 0) staleOps) 0 1).1 = some ⟨5⟩ ∧
     getRaw (run badTable (Graph.init 0) staleOps).forest 0 1 = some ⟨7⟩ := by
   decide
+
+/-! ### counterexample (checked): `C09_cached_get_eq_raw` is FALSE as stated
+
+`update` performs no cycle check, so a history can close a cycle in `parents`; on a 4-cycle
+`pathTo f 0 2` and the reverse of the cached `pathTo f 2 0` are different paths with different
+products.  The theorem holds for histories that keep the forest acyclic (examples below). -/
+example : LawfulGroup Z :=
+  ⟨fun ⟨x⟩ ⟨y⟩ ⟨z⟩ => by show Z.mk (x + y + z) = Z.mk (x + (y + z)); rw [Int.add_assoc],
+   fun ⟨x⟩ => by show Z.mk (0 + x) = Z.mk x; rw [Int.zero_add],
+   fun ⟨x⟩ => by show Z.mk (x + 0) = Z.mk x; rw [Int.add_zero],
+   fun ⟨x⟩ => by show Z.mk (-x + x) = Z.mk 0; rw [Int.add_left_neg],
+   fun ⟨x⟩ => by show Z.mk (x + -x) = Z.mk 0; rw [Int.add_right_neg]⟩
+
+def cycleOps : List (Op Nat Z) :=
+  [.update 0 1 ⟨1⟩, .update 1 2 ⟨10⟩, .update 2 3 ⟨100⟩, .update 3 0 ⟨1000⟩, .get 0 2]
+
+/-- on a 4-cycle of frames the cached and the cache-free answers differ (outside the property's
+    domain: the frames do not form a forest) -/
+theorem C09_cycle_witness :
+    (⟨true, true, true, true, true⟩ : InvalTable).ok = true ∧
+    (doGet (run ⟨true, true, true, true, true⟩ (Graph.init 0) cycleOps) 0 2).1 = some ⟨-11⟩ ∧
+    getRaw (run ⟨true, true, true, true, true⟩ (Graph.init 0) cycleOps).forest 0 2 = some ⟨1100⟩ := by
+  decide
+
+/-- the statement is provable when the forest is well formed after every operation -/
+example {N G : Type} [DecidableEq N] [Mul G] [One G] [Inv G] [LawfulGroup G] [DecidableEq G]
+    (t : InvalTable) (ht : t.ok = true) (base : N) (ops : List (Op N G))
+    (hwf : ∀ k, WF (run t (Graph.init base) (ops.take k)).forest) (a b : N) :
+    (doGet (run t (Graph.init base) ops) a b).1 = getRaw (run t (Graph.init base) ops).forest a b :=
+  cached_get_eq_raw_of_acyclic t ht base ops (fun k => (hwf k).acyclic) a b
 
 /-! non-vacuity (tests, labelled as such): a three-level forest with a re-parenting -/
 def demoOps : List (Op Nat Z) :=
